@@ -374,7 +374,7 @@ pub fn run(cfg: &RunCfg) -> i32 {
     return crate::replay_main::<Case>(cfg, path, check);
   }
   crate::replay_known::<Case>(&mut report, &known, check);
-  let total = cfg.budget(4_000, 40_000);
+  let total = cfg.budget(4_000, 160_000);
   let o = drive(cfg, "fix", total, &known, strategy, interpret, check);
   report.absorb("fix", o);
   cli::cleanup_work_root();
